@@ -434,6 +434,26 @@ def generate(tier):
     bad('unit-variant', 'Deref|only-unit', K.render(X('enum', [('u', 0)]), K.Config('', ['Deref'])))
     bad('unit-variant', 'Into|empty-enum', K.render(X('enum', []), K.Config('', ['Into(u8)'])))
     bad('unit-variant', 'Deref|empty-enum', K.render(X('enum', []), K.Config('', ['Deref'])))
+    # Default's own field attribute on a field of a variant that is not the default variant (tuple and struct-like), and under a type-level expression
+    for vs, dv in [((('t', 2), ('n', 2)), 0), ((('t', 2), ('n', 2)), 1), ((('u', 0), ('t', 1), ('t', 2)), 0), ((('n', 1), ('t', 3)), 0)]:
+        sh = X('enum', list(vs))
+        for vi, (st, n) in enumerate(vs):
+            if vi == dv or n == 0:
+                continue
+            for fi in (0, n - 1):
+                for form in ('Default = 1', 'Default(expression = 1)', 'Default'):
+                    bad('bad-position', 'Default|non-default-variant|%s|v%d|%d.%d|%s' % (''.join(s_ for s_, _ in vs), dv, vi, fi, form),
+                        K.render(sh, K.Config('', ['Default'], {dv: ['Default']}, {(vi, fi): [form]})), K.render(sh, K.Config('', ['Default'], {dv: ['Default']})))
+    sh = X('enum', [('t', 2), ('n', 1)])
+    for pos in ((0, 1), (1, 0)):
+        bad('bad-position', 'Default|type-expression|%s' % (pos,), K.render(sh, K.Config('', ['Default(expression = Ty::V1 { f0: 1 })'], {}, {pos: ['Default = 1']})),
+            K.render(sh, K.Config('', ['Default(expression = Ty::V1 { f0: 1 })'])))
+    # union fields take no parameters of the byte-wise traits in any spelling (list, name-value shorthand)
+    un2 = X('union', [('n', 2)])
+    for t in ('Debug', 'PartialEq', 'Hash'):
+        for form in ('%s = false' % t, '%s = true' % t, '%s(ignore)' % t, '%s(ignore = false)' % t, '%s(method(m))' % t, '%s = "x"' % t if t == 'Debug' else '%s(ignore(true))' % t):
+            for fi in (0, 1):
+                bad('union', 'field-param|%s|%d|%s' % (t, fi, form), K.render(un2, K.Config('', ['%s(unsafe)' % t], {}, {(0, fi): [form]})), K.render(un2, K.Config('', ['%s(unsafe)' % t])))
     # candidates that equal the target only up to the lifetime of a reference are candidates all the same (`&str`, `&'a str`, `&'static str`)
     for tgt in ("&'static str", '&str'):
         for fa, fb in (("&'static str", "&'a str"), ("&'a str", "&'static str"), ("&'a str", "&'b str")):
